@@ -833,6 +833,13 @@ protected:
       {
         // Handle chunked encoding
         requestEndPos = findChunkedRequestEnd(dataStr, headerEnd + 4);
+        if (requestEndPos == kChunkedInvalid)
+        {
+          // More bytes cannot repair a malformed chunk size: answer and close
+          // instead of leaving the connection waiting.
+          sendErrorResponse(sid, 400, "Bad Request", "Invalid chunk size");
+          return;
+        }
         if (requestEndPos == std::string::npos)
         {
           break; // Need more data for chunked body
@@ -1369,6 +1376,10 @@ protected:
   }
 
   /// \brief Find the end of a chunked request body
+  /// findChunkedRequestEnd result for a chunk-size line that is not a number
+  /// (std::string::npos means "need more data").
+  static constexpr std::size_t kChunkedInvalid = std::string::npos - 1;
+
   std::size_t findChunkedRequestEnd(const std::string &data, std::size_t bodyStart) const
   {
     std::size_t pos = bodyStart;
@@ -1392,7 +1403,7 @@ protected:
       catch (...)
       {
         iora::core::Logger::error("HttpServer: Invalid chunk size in chunked encoding");
-        return std::string::npos;
+        return kChunkedInvalid;
       }
 
       pos = chunkSizeLine + 2; // Skip \r\n
